@@ -5,16 +5,16 @@
 #        PROPS="C01 C04" overrides the properties to run (default: the change's own property)
 cd "$(dirname "$0")/.."
 budget=$1; shift
+tmp=$(mktemp /var/tmp/matrix.XXXXXX)
 for id in "$@"; do
   d=seeded/$id
   props=${PROPS:-$(python3 -c "import json;print(json.load(open('$d/meta.json'))['property'])")}
-  out=$(MUT_SEED=${MUT_SEED:-7} tools/mutant.sh $d/patch.diff $budget $props 2>&1)
-  echo "== $id"; echo "$out"
-  python3 - "$d/meta.json" "$budget" "${MUT_SEED:-7}" <<PY
+  MUT_SEED=${MUT_SEED:-7} tools/mutant.sh $d/patch.diff $budget $props > $tmp 2>&1
+  echo "== $id"; cat $tmp
+  python3 - "$d/meta.json" "$budget" "${MUT_SEED:-7}" "$tmp" <<'PY'
 import json,sys,re
 meta=json.load(open(sys.argv[1]))
-out='''$out'''
-for l in out.splitlines():
+for l in open(sys.argv[4],errors='replace').read().splitlines():
     m=re.match(r'(C\d\d) rc=(\d+) violations=(\d+) ?(.*)',l)
     if not m: continue
     sigs=re.findall(r'violation \[([^\]]+)\]',m.group(4))
@@ -22,3 +22,4 @@ for l in out.splitlines():
 json.dump(meta,open(sys.argv[1],'w'),indent=1)
 PY
 done
+rm -f $tmp
